@@ -359,11 +359,11 @@ func f1GdefToken(t *gdef.Table) string {
 	return fmt.Sprintf("%s/c%da%dm%d", f1Tok(t.Encode()), len(t.GlyphClass), len(t.MarkAttachClass), len(t.MarkGlyphSets))
 }
 
-// f1EmptyGtab: present-but-empty layout tables.  e0 (nothing at all) survives the gtab codec;
-// e0n (the same with a nil instead of an empty script map),
-// e1 (a script without features), e2 (a feature without lookups), e3 (a lookup no feature uses)
-// are reduced to e0 by it (the reader returns an empty Info when the script or lookup list is
-// missing), so they are used for the fixed-point and reproducibility predicates only.
+// f1EmptyGtab: present-but-empty layout tables: e0 (nothing at all), e0n (the same with a nil
+// instead of an empty script map; the reader returns the empty map, which the token does not
+// distinguish), e1 (a script without features), e2 (a feature without lookups), e3 (a lookup no
+// feature uses).  Since the gtab fix d444265 (missing lists are written as empty lists instead of
+// offset 0) every one of them survives Write→Read with its counts, so all take part in every stream.
 func f1EmptyGtab(recipe string, gsub bool) *gtab.Info {
 	tag := language.MustParse("und-Latn-x-latn")
 	switch recipe {
@@ -388,7 +388,8 @@ func f1EmptyGtab(recipe string, gsub bool) *gtab.Info {
 	return nil
 }
 
-func f1CodecStable(recipe string) bool { return recipe == "-" || recipe == "" || recipe == "1" || recipe == "e0" }
+// f1CodecStable: layout-table recipes the gtab codec returns unchanged (all of them since d444265)
+func f1CodecStable(recipe string) bool { return true }
 
 func f1BuildGsub(recipe string, n int) *gtab.Info {
 	if strings.HasPrefix(recipe, "e") {
@@ -1673,9 +1674,7 @@ func init() {
 	}
 }
 
-// f1EmitFont emits every stream for one constructed font.  Fonts whose layout tables the gtab
-// codec itself reduces (recipes e1..e3) take part in the fixed-point and reproducibility
-// predicates only.
+// f1EmitFont emits every stream for one constructed font.
 func f1EmitFont(c *Ctx, rec f1FontRecipe, withDerive bool) {
 	args := f1LineOfFont(rec.font, rec.rgl, rec.rcm, rec.rgsub, rec.rgpos, rec.rgdef)
 	if f1CodecStable(rec.rgsub) && f1CodecStable(rec.rgpos) && f1CodecStable(rec.rgdef) {
